@@ -109,9 +109,16 @@ class Evaluator:
         self.stamp_loops = stamp_loops
         self.site_loc = {}
         self.site_effect = {}
+        self.upd_sites = {}   # key of an ("upd", key, ..) term -> [(frame, block)] of its projection writes (see upd_write_ctrl)
 
     def frame(self, body, env=None, chain=()):
         return Frame(self, body, env, chain)
+
+
+def upd_write_ctrl(ev, upd):
+    """control context (within the writing function) of every projection write folded into an ("upd", key, base, writes) term:
+    [ctrl tuple per write site]; an `upd` says WHAT is written where, this says under which guards / loops"""
+    return [fr.ctrl_of_block(bi) for (_, bi), fr in ev.upd_sites.get(upd[1], {}).items()]
 
 
 class Frame:
@@ -292,6 +299,7 @@ class Frame:
             w = (proj, val)
             if w not in writes:
                 writes.append(w)
+            self.ev.upd_sites.setdefault(key, {}).setdefault((self.body.id, bi), self)
         return ("upd", key, base, tuple(writes))
 
     def _proj_desc(self, projs):
